@@ -55,7 +55,7 @@ dMob == DimDiv(dDiff, dVolt)
 
 U(si, dim) == [si |-> Norm(si), dim |-> dim]
 UnitNames == {"none", "1", "K", "mK", "bar", "Pa", "kPa", "atm", "M", "mM", "mol/m3", "kg/m3", "g/cm3",
-              "m2/s", "cm2/s", "cP", "M/atm", "mM/bar", "mol/m3/Pa", "kg/mol", "g/mol", "V", "m2/V/s"}
+              "m2/s", "cm2/s", "cP", "Pa*s", "M/atm", "mM/bar", "mol/m3/Pa", "kg/mol", "g/mol", "V", "m2/V/s"}
 UnitTable == [u \in UnitNames |->
     CASE u = "none" -> U(<<1, 1>>, DimZero)          [] u = "1" -> U(<<1, 1>>, DimZero)
       [] u = "K" -> U(<<1, 1>>, dTemp)               [] u = "mK" -> U(<<1, 1000>>, dTemp)
@@ -65,7 +65,7 @@ UnitTable == [u \in UnitNames |->
       [] u = "mol/m3" -> U(<<1, 1>>, dConc)
       [] u = "kg/m3" -> U(<<1, 1>>, dDens)           [] u = "g/cm3" -> U(<<1000, 1>>, dDens)
       [] u = "m2/s" -> U(<<1, 1>>, dDiff)            [] u = "cm2/s" -> U(<<1, 10000>>, dDiff)
-      [] u = "cP" -> U(<<1, 1000>>, dVisc)
+      [] u = "cP" -> U(<<1, 1000>>, dVisc)          [] u = "Pa*s" -> U(<<1, 1>>, dVisc)
       [] u = "M/atm" -> U(<<1000, 101325>>, DimDiv(dConc, dPress))
       [] u = "mM/bar" -> U(<<1, 100000>>, DimDiv(dConc, dPress))
       [] u = "mol/m3/Pa" -> U(<<1, 1>>, DimDiv(dConc, dPress))
@@ -86,23 +86,33 @@ DimPairs(d) == LET idx == { i \in 1..6 : d[i] # 0 }
 Fns == {"water_density", "water_viscosity", "water_diffusion", "water_permittivity",
         "sulfuric_acid_density", "density_from_concentration", "lg_solubility_ratio",
         "henry_H", "henry_c", "henry_P", "henry_roundtrip", "nernst", "mobility"}
-ArgNames == {"T", "P", "w", "c1", "c2", "z", "D", "H0", "Td", "M"}
+ArgNames == {"T", "P", "w", "c1", "c2", "z", "D", "H0", "Td", "M", "T0", "Tz", "eta20"}
+(* optional arguments and their documented defaults: T0 (reference temperature of a Henry       *)
+(* constant, 298.15 K), Tz (the kelvin value of 0 C in the density correlations, 273.15 K),       *)
+(* eta20 (viscosity at 20 C, 1.0020 cP).  `impl` = leave arguments that equal their documented    *)
+(* default implicit (not passed); otherwise they are passed explicitly - with the same meaning.   *)
+HenryT0 == <<5963, 20>>
+K0 == <<5463, 20>>                               \* 273.15 K
+Eta20 == <<501, 500>>
 NoArgs == [T |-> QZero, P |-> QZero, w |-> QZero, c1 |-> QZero, c2 |-> QZero, z |-> QZero,
-           D |-> QZero, H0 |-> QZero, Td |-> QZero, M |-> QZero, sel |-> 0]
+           D |-> QZero, H0 |-> QZero, Td |-> QZero, M |-> QZero, T0 |-> HenryT0, Tz |-> K0, eta20 |-> Eta20,
+           sel |-> 0, impl |-> TRUE]
+DefaultOf(a) == CASE a = "T0" -> HenryT0 [] a = "Tz" -> K0 [] a = "eta20" -> Eta20
 
 (* arguments that carry a unit, with the unit they are documented in *)
 DocUnits(f) ==
-    CASE f \in {"water_density", "water_viscosity", "water_diffusion", "sulfuric_acid_density"} ->
-              [a \in {"T"} |-> "K"]
+    CASE f \in {"water_density", "sulfuric_acid_density"} -> [a \in {"T", "Tz"} |-> "K"]
+      [] f = "water_viscosity" -> [a \in {"T", "eta20"} |-> IF a = "T" THEN "K" ELSE "cP"]
+      [] f = "water_diffusion" -> [a \in {"T"} |-> "K"]
       [] f = "water_permittivity" -> [a \in {"T", "P"} |-> IF a = "T" THEN "K" ELSE "bar"]
       [] f = "density_from_concentration" ->
               [a \in {"T", "M"} |-> IF a = "T" THEN "K" ELSE "kg/mol"]       \* conc: see ConcGiven
       [] f = "lg_solubility_ratio" -> [a \in {"c1", "c2"} |-> "M"]
-      [] f = "henry_H" -> [a \in {"T", "H0", "Td"} |-> CASE a = "T" -> "K" [] a = "H0" -> "M/atm" [] a = "Td" -> "K"]
+      [] f = "henry_H" -> [a \in {"T", "H0", "Td", "T0"} |-> CASE a = "H0" -> "M/atm" [] OTHER -> "K"]
       [] f \in {"henry_c", "henry_roundtrip"} ->
-              [a \in {"T", "H0", "Td", "P"} |-> CASE a = "T" -> "K" [] a = "H0" -> "M/atm" [] a = "Td" -> "K" [] a = "P" -> "atm"]
+              [a \in {"T", "H0", "Td", "T0", "P"} |-> CASE a = "H0" -> "M/atm" [] a = "P" -> "atm" [] OTHER -> "K"]
       [] f = "henry_P" ->
-              [a \in {"T", "H0", "Td", "c1"} |-> CASE a = "T" -> "K" [] a = "H0" -> "M/atm" [] a = "Td" -> "K" [] a = "c1" -> "M"]
+              [a \in {"T", "H0", "Td", "T0", "c1"} |-> CASE a = "H0" -> "M/atm" [] a = "c1" -> "M" [] OTHER -> "K"]
       [] f = "nernst" -> [a \in {"T", "c1", "c2"} |-> IF a = "T" THEN "K" ELSE "mM"]
       [] f = "mobility" -> [a \in {"T", "D"} |-> IF a = "T" THEN "K" ELSE "m2/s"]
 (* the scaled unit of an argument (mode "scaled"); arguments not listed keep the documented one *)
@@ -115,6 +125,7 @@ ScaledUnit(f, a) ==
       [] a = "c2" /\ f = "nernst" -> "M"
       [] a = "H0" -> "mM/bar"
       [] a = "D" -> "cm2/s"
+      [] a = "eta20" -> "Pa*s"
       [] OTHER -> DocUnits(f)[a]
 ResultUnit(f) ==
     CASE f \in {"water_density", "sulfuric_acid_density", "density_from_concentration"} -> "kg/m3"
@@ -153,7 +164,7 @@ ConstModes(names) == {Md3("unitless", FALSE, FALSE)} \cup
 ModesOf(f) ==
     { m \in (IF f = "nernst" THEN ConstModes({"concplain", "units", "scaled"})
              ELSE IF f = "mobility" THEN ConstModes({"units", "scaled"})
-             ELSE IF f \in {"water_density", "water_viscosity", "water_diffusion", "sulfuric_acid_density"}
+             ELSE IF f \in {"water_density", "water_diffusion", "sulfuric_acid_density"}
              THEN { Md(n, FALSE) : n \in {"unitless", "units", "scaledT"} }
              ELSE IF f \in {"density_from_concentration", "lg_solubility_ratio"}
              THEN { Md(n, FALSE) : n \in {"unitless", "units", "scaled"} }
@@ -164,18 +175,19 @@ UnitIn(f, a, m) ==
       [] m.name = "concplain" -> IF a = "T" THEN DocUnits(f)[a] ELSE "none"
       [] m.name = "units" -> DocUnits(f)[a]
       [] m.name = "scaled" -> ScaledUnit(f, a)
-      [] m.name = "scaledT" -> IF a = "T" THEN "mK" ELSE DocUnits(f)[a]
+      [] m.name = "scaledT" -> IF a \in {"T", "T0", "Tz"} THEN "mK" ELSE DocUnits(f)[a]
 DocOf(f, a, u) == IF u = "none" THEN DocUnits(f)[a] ELSE u
 (* what is handed over for argument a: magnitude `mag` in unit `unit` (mul = mag / value) *)
 GivenArg(f, ar, a, m) ==
     LET u == UnitIn(f, a, m)
         mul == Conv(DocUnits(f)[a], DocOf(f, a, u))
     IN  [unit |-> u, mul |-> mul, mag |-> QMul(ar[a], mul)]
-Given(f, ar, m) == [a \in DOMAIN DocUnits(f) |-> GivenArg(f, ar, a, m)]
+OptionalArgs == {"T0", "Tz", "eta20"}
+Omitted(f, ar) == IF ar.impl THEN { a \in DOMAIN DocUnits(f) \cap OptionalArgs : Norm(ar[a]) = DefaultOf(a) } ELSE {}
+Given(f, ar, m) == [a \in DOMAIN DocUnits(f) \ Omitted(f, ar) |-> GivenArg(f, ar, a, m)]
 
 ------------------------------------------------------------------------------
 (* validity ranges *)
-K0 == <<5463, 20>>                               \* 273.15 K
 TRange(f) ==
     CASE f = "water_density" -> <<K0, <<6263, 20>>>>                       \* 0 .. 40 C
       [] f \in {"water_viscosity", "water_diffusion"} -> <<K0, <<7463, 20>>>>  \* 0 .. 100 C
@@ -209,6 +221,7 @@ WarnExpectM(f, ar, m) ==
 ------------------------------------------------------------------------------
 (* exact laws *)
 Celsius(T) == DSub(DFromQ(T), DHund(27315))
+CelsiusZ(T, Tz) == DSub(DFromQ(T), DFromQ(Tz))      \* with the caller-supplied kelvin value of 0 C
 
 (* Tanaka et al. 2001:  rho = a5 (1 - (t + a1)^2 (t + a2) / (a3 (t + a4))),  t in Celsius *)
 Tanaka_a0 == DDec(-1, 3, <<9830, 3500>>)       \* -3.983035
@@ -228,7 +241,7 @@ KorsonE(t) == DQ(DSub(DMul(Korson_A, DSub(DInt(20), t)), DMul(Korson_B, DSq(DSub
                  DAdd(t, Korson_C))
 vT == TVar("T")
 tC == TSub(vT, TQ(27315, 100))
-ViscTerm == TMul(TQ(501, 500),
+ViscTerm == TMul(TVar("eta20"),
                  TPow(TC(10), TDiv(TSub(TMul(TQ(11709, 10000), TSub(TC(20), tC)),
                                         TMul(TQ(1827, 1000000), TSq(TSub(tC, TC(20))))),
                                    TAdd(tC, TQ(8993, 100)))))
@@ -275,11 +288,12 @@ Schumpe(sel, c1, c2) ==
     QAdd(QMul(QAdd(HGas(s.gas), HIon(s.ions[1])), c1), QMul(QAdd(HGas(s.gas), HIon(s.ions[2])), c2))
 
 (* Henry's law with van 't Hoff temperature dependence, T0 = 298.15 K                        *)
-HenryT0 == <<5963, 20>>
-HenryTerm == TMul(TVar("H0"), TExp(TMul(TVar("Td"), TSub(TInv(vT), TInv(TConst(HenryT0))))))
-HenrySel == << [H0 |-> <<12, 10000>>, Td |-> <<1800, 1>>],      \* O2  (docstring of Henry)
-               [H0 |-> <<78, 100000>>, Td |-> <<640, 1>>],      \* H2  (tests)
-               [H0 |-> <<34, 1000>>, Td |-> <<2400, 1>>] >>     \* CO2-like
+HenryTerm == TMul(TVar("H0"), TExp(TMul(TVar("Td"), TSub(TInv(vT), TInv(TVar("T0"))))))
+HenrySel == << [H0 |-> <<12, 10000>>, Td |-> <<1800, 1>>, T0 |-> HenryT0, impl |-> TRUE],      \* O2 (docstring)
+               [H0 |-> <<78, 100000>>, Td |-> <<640, 1>>, T0 |-> HenryT0, impl |-> FALSE],     \* H2 (tests), T0 passed
+               [H0 |-> <<34, 1000>>, Td |-> <<2400, 1>>, T0 |-> HenryT0, impl |-> TRUE],       \* CO2-like
+               [H0 |-> <<13, 10000>>, Td |-> <<1700, 1>>, T0 |-> <<5863, 20>>, impl |-> TRUE], \* tabulated at 293.15 K
+               [H0 |-> <<9, 10000>>, Td |-> <<1500, 1>>, T0 |-> <<310, 1>>, impl |-> FALSE] >> \* tabulated at 310 K
 (* Nernst:  E = R T / (z F) ln(c_out / c_in);  Einstein-Smoluchowski:  mu = D z e / (kB T)   *)
 cR == TAdd(TC(8), TDec(3144598, -7))                  \* 8.3144598 J/(mol K)
 cF == TAdd(TC(96485), TQ(33289, 100000))              \* 96485.33289 C/mol
@@ -305,9 +319,9 @@ Env(ar) == [n \in ArgNames |-> ar[n]]
 BDQ(x) == [num |-> x.n, den |-> x.d]
 NoBDQ == [num |-> DZero, den |-> DOne]
 Expected(f, ar) ==
-    IF f = "water_density" THEN [kind |-> "bdq", bdq |-> BDQ(RhoWater(Celsius(ar.T))), q |-> QZero, term |-> TC(0)]
+    IF f = "water_density" THEN [kind |-> "bdq", bdq |-> BDQ(RhoWater(CelsiusZ(ar.T, ar.Tz))), q |-> QZero, term |-> TC(0)]
     ELSE IF f \in {"sulfuric_acid_density", "density_from_concentration"}
-    THEN [kind |-> "bdq", bdq |-> BDQ(DQ(RhoAcid(DFromQ(ar.w), Celsius(ar.T)), DOne)), q |-> QZero, term |-> TC(0)]
+    THEN [kind |-> "bdq", bdq |-> BDQ(DQ(RhoAcid(DFromQ(ar.w), CelsiusZ(ar.T, ar.Tz)), DOne)), q |-> QZero, term |-> TC(0)]
     ELSE IF f = "lg_solubility_ratio"
     THEN [kind |-> "q", bdq |-> NoBDQ, q |-> Schumpe(ar.sel, ar.c1, ar.c2), term |-> TC(0)]
     ELSE IF f = "henry_roundtrip"
@@ -408,14 +422,18 @@ ViscosityShape ==
         /\ (DEq(t, DInt(20)) => DEq(KorsonE(t).n, DZero))          \* eta(20 C) = eta20 = 1.0020 cP
         /\ (DLt(t, DInt(20)) <=> DLt(DZero, KorsonE(t).n))
 ViscosityAnchor ==
-    LET v == EvalQR(ViscTerm, [n \in {"T"} |-> <<5863, 20>>]) IN v.st = "q" /\ v.q = <<501, 500>>
+    LET v == EvalQR(ViscTerm, [n \in {"T", "eta20"} |-> IF n = "T" THEN <<5863, 20>> ELSE Eta20])
+    IN  v.st = "q" /\ v.q = <<501, 500>>
 AcidAnchors ==
     /\ DQWithin(DQ(RhoAcid(DDec(1, 0, <<1000>>), DDec(1, 24, <<8500>>)), DOne), DQ(DDec(1, 1063, <<8000>>), DOne), DDec(1, 0, <<1000>>))
     /\ DLe(DInt(1396), RhoAcid(DDec(1, 0, <<5000>>), DDec(1, 19, <<8500>>)))
     /\ DLt(RhoAcid(DDec(1, 0, <<5000>>), DDec(1, 19, <<8500>>)), DInt(1397))
 HenryAnchor ==
-    LET v == EvalQR(HenryTerm, [n \in {"T", "H0", "Td"} |-> CASE n = "T" -> HenryT0 [] n = "H0" -> <<12, 10000>> [] n = "Td" -> <<1800, 1>>])
-    IN  v.st = "q" /\ v.q = <<3, 2500>>                             \* H(T0) = H0
+    \A i \in 1..Len(HenrySel) :                                    \* H(T0) = H0, whatever T0
+        LET h == HenrySel[i]
+            v == EvalQR(HenryTerm, [n \in {"T", "H0", "Td", "T0"} |->
+                        CASE n = "T" -> h.T0 [] n = "H0" -> h.H0 [] n = "Td" -> h.Td [] n = "T0" -> h.T0])
+        IN  v.st = "q" /\ v.q = Norm(h.H0)
 NernstZero ==
     (fn = "nernst" /\ stage # "idle" /\ args.c1 = args.c2) =>
         \* the logarithmic factor vanishes exactly (the prefactor R T / (z F) is finite)
@@ -430,7 +448,7 @@ RelevantArgs == DOMAIN DocUnits(fn) \cup
 CaseRec ==
     LET e == Expected(fn, args) IN
     [ in  |-> [fn |-> fn, mode |-> mode,
-               args |-> [a \in RelevantArgs |-> args[a]], sel |-> args.sel,
+               args |-> [a \in RelevantArgs |-> args[a]], sel |-> args.sel, impl |-> args.impl,
                given |-> given,
                conc |-> IF fn = "density_from_concentration" THEN ConcGiven(args, mode)
                         ELSE [unit |-> "none", mul |-> QOne, bdq |-> NoBDQ],
